@@ -302,7 +302,7 @@ def valid(text):
             return p0 == 0 or ndigits(s, b) <= p0
         if op in ("with_base", "with_base_prec"):
             b, s, p0 = int(t[1], 16), core.unhx(t[4]), int(t[6], 16)
-            return (p0 == 0 or ndigits(s, b) <= p0) and t[2] in ("2", "3", "a", "10")
+            return (p0 == 0 or ndigits(s, b) <= p0) and t[3] in ("2", "3", "a", "10")
     except Exception:
         return False
     return True
